@@ -71,7 +71,12 @@ class Disposables:
                 else BaseExceptionGroup("Disposables initialization errors", exceptions)
             )
             # exit those which were already entered, the scope body will never run
-            await self._dispose(entered, exception=exception)
+            if disposing_errors := await self._dispose(entered, exception=exception):
+                raise BaseExceptionGroup(
+                    "Disposables initialization errors",
+                    [*exceptions, *disposing_errors],
+                )
+
             raise exception
 
         return [*chain.from_iterable(state for state in results if not isinstance(state, BaseException))]
@@ -81,8 +86,8 @@ class Disposables:
         disposables: Iterable[Disposable],
         /,
         exception: BaseException,
-    ) -> None:
-        await gather(
+    ) -> list[BaseException]:
+        results: list[bool | BaseException | None] = await gather(
             *[
                 disposable.__aexit__(
                     type(exception),
@@ -93,6 +98,8 @@ class Disposables:
             ],
             return_exceptions=True,
         )
+
+        return [exc for exc in results if isinstance(exc, BaseException)]
 
     async def __aexit__(
         self,
